@@ -206,7 +206,8 @@ package goat
 //@ func goat.(*Proxy).serveClients
 //@   nopanic[C17.nopanic]
 //@   requires ctx != nil
-//@   loop 0 invariant[C17.serve_loop] true
+//@   loop 0 invariant[C17.failed_connection_removed C16.failed_connection_removed] bound("cmd") && cmd.rpc == nil && cmd.err != nil ==>
+//@     | aftercall("sync.Mutex).Unlock", !(cmd.id in p.clients && p.clients[cmd.id] == cmd.client))
 //@   atcall[C17.remove_only_failed_connection] builtin delete : bound("cmd") && cmd.client != nil && p.clients[cmd.id] == cmd.client
 //@   atcall[C17.forward_under_senders_name C16.forward_under_senders_name] goat.(*Proxy).forwardRpc : arg1 == cmd.id && arg2 == cmd.rpc
 
@@ -391,6 +392,7 @@ package goat
 //@ func goat.(*ClientConn).newStream$1
 //@   inline
 //@   loop 0 invariant[C20.end_once_per_handler] ncalls("HandleRPC:*google.golang.org/grpc/stats.End") == old(ncalls("HandleRPC:*google.golang.org/grpc/stats.End")) + rangeindex + 1
+//@   loop 0 invariant[C20.end_once_per_handler] ncalls("HandleRPC:*google.golang.org/grpc/stats.Begin") == old(ncalls("HandleRPC:*google.golang.org/grpc/stats.Begin"))
 
 //@ func goat.(*ClientConn).newStream
 //@   nopanic[C13.nopanic]
